@@ -78,6 +78,7 @@ func (e *Eng) obligations() {
 	fsi := e.fn("(*internalParsedJson).findStructuralIndices")
 	e.terminatorSend(fsi)
 	e.syncCapacity()
+	e.pipeline()
 	// pooled objects are reset before they are put back / after they are taken
 	e.poolDiscipline()
 
